@@ -104,15 +104,24 @@ def _tie(r):
 def run(r):
     quick = r.tier == "quick"
     r.trusted += TRUSTED_COMMON + [
-        "f64 arithmetic on non-negative integers = round-to-nearest-even to 53 bits (rnd53); usize -> f64 conversion likewise",
-        "the abstraction of the interpreter to call-stack events (cnode: frame pushes, guarded global calls, data-dependent choices as an oracle)",
-        "the search harness: worker isolation by process, panic hook recording Location, ulimit -v 12 GB, 8 MiB thread stacks, UIUA_MAX_MB=64",
-        "platform facts (stack bytes per frame, allocator behaviour) are observed, not modelled",
+        "f64 arithmetic on non-negative integers = round-to-nearest-even to 53 bits (rnd53), +inf as None; usize -> f64 and `isize::MAX as f64` = 2^63 likewise",
+        "Limits.v transcribes validate_size_impl as of commit 1cc30f2 (zero dimensions skipped, non-zero product compared with 2^63), range_impl's "
+        "size check before its zero-dimension return (9313bfc) and rerank's bound of 99 dimensions (13d1954); the code before those commits is kept "
+        "as validate_size_pre / range_len_pre / rerank_prepends_pre for the *_refuted_pre records",
+        "the abstraction of the interpreter to call-stack events (cnode: frame pushes, guarded calls of bound functions and recursive index macros, "
+        "data-dependent choices as an oracle); the tie's two recursion programs and the nested-array-literal IR shape are written by hand from `spine show`",
+        "the search harness: worker isolation by process (exit status / signal observed, respawn), a panic hook recording Location for every panic "
+        "(also those uiua turns into 'has crashed' errors), `ulimit -v` 12 GB, 8 MiB thread stacks, UIUA_MAX_MB=64, execution limit 2 s, recursion "
+        "limit 40, pool time-out 8 s (quick) / 12 s (thorough) confirmed by re-running the stage alone for 40 s (quick) / 150 s (thorough) before a hang is reported; a stage that is slow but finishes is listed under slow_not_hung and the later stages are then run too; a run whose EXECUTION (compilation excluded) takes more than 10 s under the 2 s limit counts as not respecting the limit",
+        "the harness is built with overflow-checks on and debug-assertions off: arithmetic-overflow panics are reported under 'overflow:' keys although a release build wraps",
+        "platform facts (stack bytes per frame, allocator behaviour, machine load for the time-outs) are observed, not modelled",
     ]
-    r.assumptions += ["size limit below 2^53 bytes (UIUA_MAX_MB < 8 PiB); dimensions are usize values",
+    r.assumptions += ["size guard: limit below 2^53 bytes (UIUA_MAX_MB < 8 PiB), dimensions are usize values, rank below 2^50 (for the relative-error bound on the f64 product)",
                       "call depth: every function body stacks at most D frames without passing a guarded call (D is a static property of the program)",
                       "lexer asserts: input below 4 GiB and 65535 lines/columns, control paths respecting the index discipline (C19's premises)",
-                      "PARTIAL: arbitrary panics, stack exhaustion and OOM are searched on the implementation, not proved"]
+                      "exec_total is a by-construction half-property of the MODEL interpreter, not a claim about the Rust interpreter",
+                      "PARTIAL: arbitrary panics, native stack exhaustion, out-of-memory and wedges are searched on the implementation, not proved; "
+                      "a crash outside the generated families is not excluded"]
     if not r.harness(["c09"]):
         return
     r.proofs()
@@ -120,7 +129,7 @@ def run(r):
 
     # ---- search
     n = 2500 if quick else 100000
-    args = ["search", n, "--hang", 8 if quick else 12] + ([] if quick else ["--thorough"])
+    args = ["search", n, "--hang", 8 if quick else 12, "--confirm", 40 if quick else 150] + ([] if quick else ["--thorough"])
     rc, out, err = run_bin("c09", args, seed=r.seed, timeout=900 if quick else 3300)
     lines = json_lines(out)
     summ = [l for l in lines if "evaluations" in l]
@@ -134,11 +143,21 @@ def run(r):
     r.coverage["search"]["slowest"] = s.get("slowest", [])[:3]
     r.coverage["evaluations"] = s["evaluations"] + s.get("history_evals", 0) + s.get("shrink_evals", 0) + ntie
     r.coverage["distinct_nontrivial"] = s["distinct_inputs"]
-    r.coverage["rule"] = ("inputs: random bytes->lossy UTF-8, token soup over Primitive::all() glyphs and a fixed piece list, token-level mutants of "
-                          "/repo/tests and /repo/examples lines, nesting prefixes, PGen programs, programs built from Primitive::all() by arity applied to "
-                          "literal and generated (gen_value) arrays, a fixed corpus of deep-nesting / resource bombs, crashes known from other properties, "
-                          "and program histories on one thread; every input goes through lex, parse, format, Spans, compile x4 modes, run (safe backend, "
-                          "2 s, recursion limit 40) in an isolated worker; distinct = distinct source texts")
+    r.coverage["rule"] = ("tie (C): boundary inputs one below / at / above each guard on the real implementation, verdict compared with the model evaluated by "
+                          "vm_compute: array size guard (UIUA_MAX_MB=8; f64/u8/char; zero dimensions with non-zero products around 2^63), range, rerank around 99, "
+                          "recursion limit 5/10/33 on two program shapes, MAX_NODE_DEPTH via nested array literals, binary box nesting, macro chain depth, and the "
+                          "former refutation witnesses which must now be refused.  search: (1) the regression corpus replayed first (every crash ever found by this or "
+                          "another property's check, labelled by the round that repaired it, and the still-open ones), (2) a fixed corpus of deep-nesting generators "
+                          "(10^3 and 6*10^3 quick; 10^3, 10^4, 10^5 thorough; lines broken every 60000 chars) and value-level resource bombs, (3) the directed "
+                          "boundary family: 41 forms of primitives taking an index/count/amount/shape argument (plain, anti, under, rows) x fill contexts x amounts "
+                          "{0, +-1, +-(len-1), +-len, +-(len+1), +-(2len+1), +-1e10, +-1e19, +-2^32, NaN, +-inf, fractions} and per-axis lists x arrays of rank 0-3 with "
+                          "empty axes (full cross product of a reduced lattice in quick, the whole lattice in thorough), (4) random families: bytes->lossy UTF-8, token "
+                          "soup over Primitive::all() glyphs and a fixed piece list, token-level mutants of /repo/tests and /repo/examples lines, nesting prefixes, PGen "
+                          "programs, programs built from Primitive::all() by arity applied to literal and generated (gen_value) arrays, half of them under "
+                          "`# Experimental!`, (5) program histories on one persistent thread.  Every input goes through lex, parse, format_str (default config), "
+                          "Spans::from_input, compile in the four PreEvalModes and run (safe backend) in an isolated worker on a fresh thread (the boundary family: "
+                          "Spans, compile-normal, run); a finding = panic escaping the API, 'has crashed' / 'bug in the interpreter' text, worker death, or no result "
+                          "(confirmed by re-running the stage alone: 40 s quick, 150 s thorough) or an execution of more than 10 s under the 2 s limit; each distinct key is shrunk by delta debugging; distinct = distinct source texts")
     r.log("search: %d inputs (%d fixed), %d distinct keys, %.0fs in workers" % (s["evaluations"], s["fixed_inputs"], len(viols), s["eval_seconds"]))
     for v in viols[:3]:
         r.sample({"key": v["violation"], "input": v["input"][:80], "stage": v["stage"], "msg": v["msg"][:80]})
